@@ -19,10 +19,10 @@ PROP = "C14"
 PREAMBLE = ("From Coq Require Import ZArith.\n"
             "From PK Require Import Lib.Bytes Lib.Check Wire.Json Wire.gen.JsonSchema Wire.JsonCheck.\n"
             "Open Scope N_scope.\n")
-COQ_TARGETS = ["theories/Wire/JsonCheck.vo", "theories/Wire/JsonFacts.vo"]
+COQ_TARGETS = ["theories/Wire/JsonCheck.vo", "theories/Wire/JsonFacts.vo", "theories/Wire/JsonLaws.vo"]
 HARNESS_BINS = ["json"]
 COQ_FILES = ["theories/Lib/Base64.v", "theories/Lib/Base64Facts.v", "theories/Wire/Json.v",
-             "theories/Wire/JsonFacts.v", "theories/Props/C14.v"]
+             "theories/Wire/JsonFacts.v", "theories/Wire/JsonLaws.v", "theories/Props/C14.v"]
 
 # what the WebAuthn specification prescribes for CollectedClientData.type, by Rust variant
 CD_TYPE_SPEC = {"Create": "webauthn.create", "Get": "webauthn.get", "PaymentGet": "payment.get"}
@@ -141,9 +141,27 @@ def same_value(a, b):
 # ------------------------------------------------------------------------------------------------
 # schema
 
+SCHEMA_CACHE = os.path.join(common.BUILD, "c14-schema.json")
+
+
 class Schema:
-    def __init__(self):
-        self.sc = json_schema.load(os.path.join(common.REPO, "passkey-types/src"))
+    """the struct / enum tables the translator reads from the tree; when the translator cannot read the tree any more
+    (stale=True) the tables of the last successful run are used, so that documents can still be generated and the
+    oracle can look for a failing input on the code as it is now"""
+    def __init__(self, stale=False):
+        self.stale = stale
+        if stale:
+            if not os.path.exists(SCHEMA_CACHE):
+                raise common.Tie("translator json_schema cannot read the current source and there is no earlier schema to generate documents from")
+            self.sc = json.load(open(SCHEMA_CACHE))
+        else:
+            try:
+                self.sc = json_schema.load(os.path.join(common.REPO, "passkey-types/src"))
+            except SystemExit as e:
+                raise common.Tie(str(e))
+            os.makedirs(common.BUILD, exist_ok=True)
+            json.dump(self.sc, open(SCHEMA_CACHE + ".tmp", "w"))
+            os.replace(SCHEMA_CACHE + ".tmp", SCHEMA_CACHE)
         self.structs, self.enums, self.aliases = self.sc["structs"], self.sc["enums"], self.sc["aliases"]
         self.names = json_schema.string_names(self.sc)
 
@@ -193,18 +211,19 @@ class Schema:
             return "(REnum %d)" % vs.index(d["E"])
         if k == "ref":
             s, env2 = self.struct_env(kind, env)
-            got = [f[0] for f in d["S"]]
+            got = dict((f[0], f[1]) for f in d["S"])
             want = [f["rust"] for f in s["fields"]]
-            if got != want:
-                raise common.Tie("field list of %s differs between the harness (%s) and the translator (%s)" % (kind[1], got, want))
-            return "(RStruct [%s])" % ";".join(self.rv(P, f["kind"], x[1], env2) for f, x in zip(s["fields"], d["S"]))
+            if sorted(got) != sorted(want):
+                raise common.Tie("field list of %s differs between the harness (%s) and the translator (%s)" % (kind[1], sorted(got), want))
+            # declaration order is the translator's (the harness describes fields by name)
+            return "(RStruct [%s])" % ";".join(self.rv(P, f["kind"], got[f["rust"]], env2) for f in s["fields"])
         raise ValueError(kind)
 
 
 def client_data_rv(sch, P, e, d):
     """description of a CollectedClientData<E> -> rv term (extra_data by E)"""
     f = dict((x[0], x[1]) for x in d["S"])
-    if [x[0] for x in d["S"]] != [x["rust"] for x in sch.structs["CollectedClientData"]["fields"]]:
+    if sorted(x[0] for x in d["S"]) != sorted(x["rust"] for x in sch.structs["CollectedClientData"]["fields"]):
         raise common.Tie("field list of CollectedClientData differs between the harness and the translator")
     vs = [v["rust"] for v in sch.enums["ClientDataType"]["variants"]]
     m = lambda dd: "(RMap [%s])" % ";".join("(%s,(RJson %s))" % (P.s(kv[0]), P.j(tree_ast(kv[1]["J"]))) for kv in dd["M"])
@@ -345,7 +364,10 @@ def walk(sch, kind, v, env, path, ctx):
     "dw": de_with of the member, "default": member has #[serde(default)], "struct": owner}"""
     kind = sch.resolve(kind, env)
     k = kind[0]
-    if ctx.get("dw") == "maybe_stringified":
+    # NOTE: what must be lenient is decided by the TYPE of the member (the property: every timeout, every binary member,
+    # every enumeration of the request options), never by the serde attribute the member carries now - otherwise a
+    # dropped attribute would silently drop its own test
+    if ctx.get("dw") == "maybe_stringified" or k == "u32" or (k == "opt" and sch.resolve(kind[1], env)[0] == "u32"):
         yield ("timeout", path, ctx); return
     if k == "bytes":
         yield ("bytes", path, ctx)
@@ -356,7 +378,7 @@ def walk(sch, kind, v, env, path, ctx):
             yield from walk(sch, kind[1], v, env, path, ctx)
     elif k == "vec":
         if v[0] == "arr":
-            lenient = ctx.get("dw") in ("ignore_unknown_vec", "ignore_unknown_opt_vec")
+            lenient = True
             for i, x in enumerate(v[1]):
                 c = {"list": path + [i] if lenient else ctx.get("list"), "dw": None, "elem_lenient": lenient}
                 yield from walk(sch, kind[1], x, env, path + [i], c)
@@ -467,13 +489,15 @@ def unknown_enum_pairs(sch, rng, kind, base):
             var = edit_at(base, path, lambda _n: unk)
             if ctx.get("elem_lenient"):
                 out.append(("enum-dropped:%s" % ctx["enum"], edit_at(base, path, lambda _n: None), var))
-            elif ctx.get("dw") == "ignore_unknown":
+            elif ctx.get("field") is not None:
                 f = ctx["field"]
                 if f["kind"][0] == "opt":
                     if f["default"]:
                         out.append(("enum-none:%s.%s" % (ctx["owner"], f["rust"]), edit_at(base, path, lambda _n: None), var))
                     out.append(("enum-none-null:%s.%s" % (ctx["owner"], f["rust"]), edit_at(base, path, lambda _n: NULL), var))
                 else:
+                    if e.get("default") is None:
+                        continue
                     dflt = S(e["variants"][e["default"]]["json"])
                     out.append(("enum-default:%s.%s" % (ctx["owner"], f["rust"]), edit_at(base, path, lambda _n: dflt), var))
                     if f["default"]:
@@ -637,15 +661,51 @@ def corpus():
     return out
 
 
+def _t(label, t0=[None]):
+    import time
+    if os.environ.get("PK_C14_TIMING"):
+        now = time.time()
+        print("[c14 %6.1fs] %s" % (0 if t0[0] is None else now - t0[0], label), flush=True)
+        if t0[0] is None: t0[0] = now
+
+
 def check(run):
-    common.run_translator("json_schema")
+    _t("start")
+    broken = []        # ties that broke before the correspondence: the search for a failing input still runs
+    stale = False
+    try:
+        common.run_translator("json_schema")
+    except common.Tie as t:
+        if not os.path.exists(os.path.join(common.COQ, common.TRANSLATORS["json_schema"][2])):
+            raise
+        broken.append(t); stale = True      # the last generated schema stays: the oracle does not depend on it
     bad = common.hygiene_gate()
     if bad:
         raise common.Tie("hygiene gate: " + "; ".join(bad))
-    common.coq_build(COQ_TARGETS)
-    thms, assum = common.props_check(PROP)
+    common.coq_build(COQ_TARGETS[:1])                 # model + checks only (no proofs): needed to evaluate the cases
+    thms, assum = [], {"closed": 0, "with_allowed_axioms": []}
+    try:
+        common.coq_build(COQ_TARGETS[1:])             # theorems over the schemas generated from the tree as it is now
+        thms, assum = common.props_check(PROP)
+    except common.Tie as t:
+        broken.append(t)
+    coqchk = "not run (quick tier)"
+    if run.tier != "quick" and not broken:
+        with common.Lock("coq", shared=True):
+            rc, out = common.sh(["coqchk", "-silent", "-o", "-Q", "theories", "PK", "PK.Props.C14"], cwd=common.COQ, timeout=1800)
+        if rc != 0 or "Axioms: <none>" not in out:
+            broken.append(common.Tie("coqchk does not accept the compiled closure of Props/C14 without axioms", out[-2000:]))
+        else:
+            coqchk = "coqchk -o: accepted, Axioms: <none>"
+    _t("proofs built")
     binary = common.harness_build("json")
-    sch = Schema()
+    _t("harness built")
+    try:
+        sch = Schema(stale)
+    except common.Tie as t:
+        if stale:
+            raise
+        broken.append(t); sch = Schema(True)
     rng = run.rng
     quick = run.tier == "quick"
     P = Printer(sch.names)
@@ -738,6 +798,32 @@ def check(run):
                 add_same("full:%s|%s" % (ty, ",".join(t for t, _ in chunk)), ty, base, [v for _, v in chunk])
             for tag, ref, var in unknown_enum_pairs(sch, rng, ("ref", ty), base):
                 add_same("unknown:%s|%s" % (ty, tag), ty, ref, [var])
+    # ---- (2b) leniently read lists: entries that do not deserialise, at every position, are dropped
+    for ty, vias in [(t, ("json",)) for t in OPTS] + [("PublicKeyCredentialDescriptor", ("json", "cbor"))]:
+        for f in sch.structs[ty]["fields"]:
+            if not (f["kind"][0] == "vec" or (f["kind"][0] == "opt" and f["kind"][1][0] == "vec")):
+                continue            # by type, not by attribute: every list of the request options is read leniently
+            ekind = f["kind"][1] if f["kind"][0] == "vec" else f["kind"][1][1]
+            is_enum = ekind[0] == "ref" and ekind[1] in sch.enums
+            for rep in range(1 if quick else 6):
+                base = G.value(("ref", ty), {}, {i: True for i in range(20)})
+                idx = [i for i, (k, _) in enumerate(base[1]) if k == f["json"]][0]
+                elems = [G.value(ekind, {}, None, None, 1) for _ in range(rng.choice([1, 2]))]
+                base = edit_at(base, [idx], lambda _n: A(elems))
+                unk = [S(rng.choice(UNKNOWN_ENUM)), I(5), NULL, A([]), B(True)] + \
+                      ([O([("zzz", I(1))])] if is_enum else [O([]), O([("type", S("public-key"))]), O([("type", S("public-key")), ("alg", I(-1))]),
+                                                             O([("type", S("public-key")), ("id", I(5))])])
+                vs = []
+                for pos in range(len(elems) + 1):
+                    for u in rng.sample(unk, 2):
+                        l = list(elems); l.insert(pos, u)
+                        vs.append(edit_at(base, [idx], lambda _n, l=l: A(l)))
+                l = list(elems)
+                for u in unk:
+                    l.insert(rng.randrange(len(l) + 1), u)
+                vs.append(edit_at(base, [idx], lambda _n, l=l: A(l)))
+                for via in vias:
+                    add_same("lenient-list:%s.%s:%s" % (ty, f["rust"], via), ty, base, vs, via)
     # nested structs on their own (both deserialiser flavours)
     NESTED = ["PublicKeyCredentialRpEntity", "PublicKeyCredentialUserEntity", "PublicKeyCredentialParameters",
               "PublicKeyCredentialDescriptor", "AuthenticatorSelectionCriteria", "AuthenticationExtensionsClientInputs",
@@ -876,7 +962,9 @@ def check(run):
     for ci, c in enumerate(cases):
         for r in c["reqs"]:
             reqs.append(r); owner.append(ci)
+    _t("cases generated")
     outs = common.harness_run(binary, reqs)
+    _t("harness run")
     per_case = [[] for _ in cases]
     for o, ci in zip(outs, owner):
         per_case[ci].append(o)
@@ -893,7 +981,9 @@ def check(run):
         json.dump([{"tag": c["tag"], "kind": c["kind"], "reqs": c["reqs"],
                     "outs": [{k: v for k, v in o.items() if k != "tree"} for o in os_], "term": t}
                    for (c, os_), t in zip(kept, terms)], open(os.environ["PK_C14_DUMP"], "w"))
+    _t("terms built")
     res = common.coq_eval(PROP, P.preamble(), terms, ["agree", "oracle"], shard=60, shard_chars=220000)
+    _t("coq eval")
 
     # ---- verdict
     def payload(c, os_):
@@ -907,13 +997,27 @@ def check(run):
                 "emit": "an emitted credential does not parse back to an equal value",
                 "cd_emit": "emitted client data does not list type, challenge, origin, crossOrigin, extras, unknown members in that order",
                 "b64": "base64url encoding followed by decoding is not the identity"}.get(c["kind"], c["kind"])
-        run.violation(dict(payload(c, os_), kind="property oracle false on the implementation's observation: " + what, others=len(res["oracle"]) - 1))
+        extra = {}
+        if c["kind"] in ("same", "corpus-same"):
+            # independent of Coq: compare the harness's normalised dumps of the parsed structs
+            dumps = [json.dumps(o.get("ok"), sort_keys=True) if "ok" in o else None for o in os_]
+            diff = [j for j in range(1, len(dumps)) if dumps[j] != dumps[0] or dumps[0] is None]
+            extra = {"differing_presentations": diff[:5], "base_parses": dumps[0] is not None,
+                     "first_differing_text": c["reqs"][diff[0]]["text"][:2000] if diff else None}
+        run.violation(dict(payload(c, os_), kind="property oracle false on the implementation's observation: " + what, others=len(res["oracle"]) - 1,
+                           broken="; ".join(b.what for b in broken) or None, **extra))
     if not res["oracle"] and not crashed:
         for i in res["agree"][:1]:
             c, os_ = kept[i]
             run.violation(dict(payload(c, os_), kind="model and implementation disagree (%s); oracle true on all %d cases of this run" % (c["kind"], len(terms)),
                                broken="correspondence json/%s (Wire.JsonCheck.agree)" % c["kind"], others=len(res["agree"]) - 1,
                                model=model_view(P, terms[i])), found_input=False)
+        if not res["agree"]:
+            for b in broken[:1]:
+                run.violation({"broken": b.what, "detail": b.detail,
+                               "note": "the theorem named in 'broken' no longer checks on the schemas generated from the current tree; the oracle "
+                                       "was true on all %d implementation observations of this run and model and implementation agree" % len(terms)},
+                              found_input=False)
 
     # ---- evidence
     def sig(c, os_):
@@ -929,10 +1033,10 @@ def check(run):
     for c, o in collide:
         keys = [kv[0] for kv in o[0]["tree"]["ok"]["o"]]
         dup += len(keys) != len(set(keys))
-    n_lem = common.count_lemmas(COQ_FILES)
+    n_lem = common.count_lemmas(COQ_FILES) if not broken else 0
     run.cov.update({
         "obligations": n_lem, "discharged": n_lem,
-        "checker_cmd": "make -C coq theories/Props/C14.vo (coqc 8.16.1, full .vo build) + hygiene gate + Print Assumptions",
+        "checker_cmd": "make -C coq theories/Props/C14.vo (coqc 8.16.1, full .vo build) + hygiene gate + Print Assumptions; " + coqchk,
         "trusted_base": ["Coq 8.16.1 kernel, vm_compute", "translators/json_schema.py (serde attributes and enum tables of the WebAuthn structs)",
                          "correspondence harness (pkharness json: serde_json text<->value, hand-written describers) + driver/c14.py",
                          "serde derive expansion, serde_json, ciborium's Value deserialiser, data-encoding, coset's algorithm table: modelled, tied by this differential run",
@@ -941,7 +1045,8 @@ def check(run):
         "evaluations": len(terms), "documents": n_docs, "distinct_nontrivial": len(sigs),
         "rule": "schema-directed: every subset of optional members of both option structs (x sampled presentations), full documents with every binary member "
                 "in 5 presentations, timeouts/algorithms as number/string/float/exponent, an unknown member at every position of every object, an unknown "
-                "string for every enumeration member and list entry, nested structs alone in both deserialiser flavours, literal tables for StringOrNum and "
+                "string for every enumeration member and list entry, entries that do not deserialise at every position of every list of the request options "
+                "(what must be lenient is chosen by the member's TYPE, not by its current serde attribute), nested structs alone in both deserialiser flavours, literal tables for StringOrNum and "
                 "Bytes incl. malformed, random malformed neighbours (replace/delete/duplicate/array-form/tagged enum), every Option shape of both credential "
                 "types emitted and re-read, client data with E = (), Map, struct incl. colliding keys, base64 of every length 0..66, coset's table over "
                 "[-70000,70000]; distinct = (kind, type, flavour, transformation tags, outcomes)",
